@@ -834,3 +834,22 @@ Proof.
   - intros H B HB. apply forallb_forall. intros A HA. apply in_alln in HB.
     destruct (sub A B) eqn:Hs; [|reflexivity]. apply Qle_bool_iff. apply H; assumption.
 Qed.
+
+(* ================================================================ why the static parameters must be admissible *)
+(* number_of_additive = 0 (np.max over nothing), number_of_xs = 0 (pop from an empty list), universum_mult = 0
+   (choice over an empty population): the run fails whatever is drawn - gn_family_okb excludes these entries *)
+Lemma gn_run_xos0 a b n d : gn_run (FXos 0 a b) n d = None.
+Proof.
+  destruct d; try reflexivity. simpl. destruct ws as [|w ws]; simpl; [|reflexivity]. reflexivity.
+Qed.
+Lemma gn_run_oxs0 a n d : gn_run (FOxs 0 a) n d = None.
+Proof.
+  destruct d; try reflexivity. simpl. destruct ws as [|w ws]; simpl; reflexivity.
+Qed.
+Lemma gn_run_coverage0 n d : (1 <= n)%nat -> gn_run (FCoverage 0) n d = None.
+Proof.
+  intros Hn. destruct d; try reflexivity. simpl.
+  destruct (length sets =? n)%nat eqn:E; [|reflexivity]. simpl.
+  destruct sets as [|U sets]; [apply Nat.eqb_eq in E; simpl in E; lia|]. simpl.
+  destruct U as [|x U]; simpl; [reflexivity|]. reflexivity.
+Qed.
